@@ -7,6 +7,7 @@
 import Proofs.PairStateList
 import Proofs.PairStateHist
 import Proofs.PairStateFull
+import Proofs.PairStateSim
 import Proofs.HandlerConsts
 namespace Hap.PairState
 open Hap.Encoder
@@ -432,6 +433,24 @@ theorem C06_no_orphans (parse : Bytes → Option Uuid) (ops : List HOp) (w : Wor
     obtain ⟨x, hx, rfl⟩ := he
     exact hu (heq ▸ List.mem_map.mpr ⟨x, hx, rfl⟩)
 
+
+/-- Orphaned identifier bytes are unobservable over whole lives: take two accessories that satisfy the
+    invariant and differ at most in `uuid_to_bytes` entries of controllers that are NOT paired (`SimW`: same
+    `paired_clients`, same `client_properties`, same bytes for every paired controller, same identity and
+    sessions). Then EVERY whole-life history gets exactly the same answers from both — every `POST /pairings`
+    answer incl. every list, every pair-verify outcome, every save flag, every restart. So the entries the
+    last-admin sweep leaves behind (`C06_stale_id_bytes_witness`) are not pairings in any observable sense. -/
+theorem C06_stale_ids_unobservable (parse : Bytes → Option Uuid) (ops : List HOp) (w v : World) (a a' : Abs)
+    (who who' : Who) (hw : HRel parse w a who) (hv : HRel parse v a' who') (h : SimW w v) :
+    hanswers parse w ops = hanswers parse v ops :=
+  simW_run parse (by decide) ops w v a a' who who' hw hv h
+
+/-- … one step at a time: same answer, and the two accessories stay related. -/
+theorem C06_stale_ids_unobservable_step (parse : Bytes → Option Uuid) (w v : World) (h : SimW w v)
+    (hw : Encoder.WF w.acc) (hv : Encoder.WF v.acc) (op : HOp) :
+    SimW (hstep parse w op).1 (hstep parse v op).1 ∧ (hstep parse w op).2 = (hstep parse v op).2 :=
+  simW_hstep parse (by decide) h hw hv op
+
 /-- Such inert entries do exist: removing the last admin sweeps `paired_clients` and `client_properties`
     but leaves the swept controllers' identifier bytes recorded (reported as a note, see DESIGN §3 C06). -/
 theorem C06_stale_id_bytes_witness :
@@ -513,6 +532,10 @@ example :
   · rintro ⟨u, hu, _⟩
     have h0 : (hrunBoth demoParse demoWorld [] (fun _ => none) demoLife).2.2 0 = none := by decide +kernel
     rw [h0] at hu; cases hu
+/-- two different accessories related by `SimW`: the second carries identifier bytes of an unpaired controller -/
+example : SimW demoWorld ⟨{ demoWorld.acc with ps := { PState.empty with u2b := [(⟨8, by decide⟩, [66])] } }, Sessions.fresh⟩ ∧
+    demoWorld.acc.ps ≠ { PState.empty with u2b := [(⟨8, by decide⟩, [66])] } :=
+  ⟨⟨⟨rfl, rfl, fun _ hu => by simp [demoWorld, PState.empty, akeys] at hu⟩, rfl, rfl, rfl, rfl, rfl, rfl⟩, by decide⟩
 /-- a state file of the oldest generation that loads: one controller, admin, identifier unknown -/
 private def demoLegacyDoc : Doc :=
   { mac := "m", configVersion := 2, pairedClients := [("00000000-0000-0000-0000-000000000007", "0a")],
